@@ -4,6 +4,7 @@ import (
 	"fmt"
 	"go/ast"
 	"go/constant"
+	"go/parser"
 	"go/token"
 	"go/types"
 	"strconv"
@@ -300,7 +301,8 @@ func (e *Env) fieldAddr(base Val, name string) (*Term, types.Type, error) {
 		if _, isPtr := curTy.Underlying().(*types.Pointer); !isPtr {
 			return nil, nil, fmt.Errorf("field %s: value of type %s is not addressable", name, typeStr(curTy))
 		}
-		addr := pFld(cur, idx)
+		sn := e.v.sortOf(curTy.Underlying().(*types.Pointer).Elem())
+		addr := e.v.D.fieldPtr(cur, sn, idx)
 		ft := tys[k]
 		if k == len(path)-1 {
 			return addr, ft, nil
@@ -989,7 +991,19 @@ func (e *Env) evalCall(c *ast.CallExpr) (Val, error) {
 		}
 		e.v.D.declFun("zz_"+name, sf.Args, sf.Ret)
 		var rty types.Type
-		if sf.Ret == "Bool" {
+		if sf.GoType != "" {
+			if tx, err := parser.ParseExpr(sf.GoType); err == nil {
+				c2 := *e
+				if pk := e.v.typesPkg(sf.Pkg); pk != nil {
+					c2.pkg = pk
+				}
+				if ty, err := c2.resolveType(tx); err == nil {
+					rty = ty
+				}
+			}
+		}
+		if rty != nil {
+		} else if sf.Ret == "Bool" {
 			rty = boolT
 		} else if sf.Ret == "Int" {
 			rty = intT
@@ -1040,7 +1054,8 @@ func exprStr(x ast.Expr) string {
 // ---- modifies locations
 
 type modLoc struct {
-	kind  string // exact, elems, key, heap, ghostvar
+	guard *Term
+	kind  string // exact, elems, key, heap, ghostvar, anyelems
 	key   string
 	addr  *Term
 	base  *Term
@@ -1061,6 +1076,27 @@ func (e *Env) evalLocs(x ast.Expr) ([]modLoc, error) {
 	if c, ok := x.(*ast.CallExpr); ok {
 		if id, ok := c.Fun.(*ast.Ident); ok {
 			switch id.Name {
+			case "when":
+				g, err := e.evalBool(c.Args[0])
+				if err != nil {
+					return nil, err
+				}
+				locs, err := e.evalLocs(c.Args[1])
+				if err != nil {
+					return nil, err
+				}
+				for i := range locs {
+					if locs[i].guard != nil {
+						locs[i].guard = tAnd(g, locs[i].guard)
+					} else {
+						locs[i].guard = g
+					}
+				}
+				return locs, nil
+			case "anyelems":
+				if sid, ok := c.Args[0].(*ast.Ident); ok {
+					return []modLoc{{kind: "anyelems", key: heapKeyForSort(sid.Name), sort: sid.Name}}, nil
+				}
 			case "all":
 				p, err := e.eval(c.Args[0])
 				if err != nil {
@@ -1104,6 +1140,17 @@ func (e *Env) evalLocs(x ast.Expr) ([]modLoc, error) {
 				}
 				dom, val := e.v.mapHeaps(e.st, mt)
 				return []modLoc{{kind: "exact", key: dom.Key, addr: m.T, sort: dom.ElSort}, {kind: "exact", key: val.Key, addr: m.T, sort: val.ElSort}}, nil
+			case "mapsof":
+				ty, err := e.resolveType(c.Args[0])
+				if err != nil {
+					return nil, err
+				}
+				mt, ok := e.v.substT(ty).Underlying().(*types.Map)
+				if !ok {
+					return nil, fmt.Errorf("mapsof() needs a map type")
+				}
+				dom, val := e.v.mapHeaps(e.st, mt)
+				return []modLoc{{kind: "key", key: dom.Key, sort: dom.ElSort}, {kind: "key", key: val.Key, sort: val.ElSort}}, nil
 			case "keyof":
 				// keyof(Sort): the whole heap component of a sort
 				if sid, ok := c.Args[0].(*ast.Ident); ok {
